@@ -195,6 +195,7 @@ def check_tables(exp: Expect, tables: list[dict]) -> list[tuple[str, str]]:
         return out
     if len(tables) != len(exp.tables):
         out.append(("table-count", f"{len(tables)} tables returned for {len(exp.tables)} in the source"))
+        return out      # positions no longer correspond: per-table comparisons would only echo the count mismatch
     for idx, (want, got) in enumerate(zip(exp.tables, tables)):
         grid = got["grid"]
         wg = want["grid"]
